@@ -1,11 +1,14 @@
 package t0138
 
+type G2 struct {
+	F0x0x0 int32
+	F0x0x1 int64
+}
+
 type G1 struct {
-	F0x0 *int32
+	F0x0 G2
 }
 
 type T struct {
-	F0 G1
-	F1 int64
-	F2 float32
+	F0 *G1
 }
